@@ -341,5 +341,8 @@ def estimate_stats(voltages, stats_calc_num_samples=10000):
     calc_len = xp.amin(xp.array([stats_calc_num_samples, len(voltages)]))
     data_sigma = xp.std(voltages[:calc_len])
     data_mean = xp.mean(voltages[:calc_len])
+    if calc_len > 0 and xp.max(voltages[:calc_len]) == xp.min(voltages[:calc_len]):
+        # Constant data: a non-zero computed deviation is only round-off in the mean
+        data_sigma = 0 * data_sigma
     
     return data_mean, data_sigma
